@@ -1,1 +1,455 @@
-pub fn main() { eprintln!("c17: not built yet"); std::process::exit(2); }
+//! C17 — memory pools.  Replays MemPool.tla histories (sequential behaviours with the observable
+//! values expected after every operation) on every real pool kind x wrapper combination.
+
+use datafusion_common::{DataFusionError, human_readable_size};
+use datafusion_execution::memory_pool::{
+    FairSpillPool, GreedyMemoryPool, MemoryConsumer, MemoryLimit, MemoryPool, MemoryReservation, PeakRecordingPool, TrackConsumersPool,
+    UnboundedMemoryPool,
+};
+use rand::rngs::StdRng;
+use rand::{Rng, SeedableRng};
+use serde_json::{Value, json};
+use std::fmt::{Display, Formatter};
+use std::num::NonZeroUsize;
+use std::sync::Arc;
+use vcommon::util;
+
+/// transparent adapter so that TrackConsumersPool (generic over an owned pool) can wrap any pool
+#[derive(Debug)]
+struct Dyn(Arc<dyn MemoryPool>);
+impl Display for Dyn {
+    fn fmt(&self, f: &mut Formatter<'_>) -> std::fmt::Result {
+        Display::fmt(&self.0, f)
+    }
+}
+impl MemoryPool for Dyn {
+    fn name(&self) -> &str {
+        self.0.name()
+    }
+    fn register(&self, c: &MemoryConsumer) {
+        self.0.register(c)
+    }
+    fn unregister(&self, c: &MemoryConsumer) {
+        self.0.unregister(c)
+    }
+    fn grow(&self, r: &MemoryReservation, a: usize) {
+        self.0.grow(r, a)
+    }
+    fn shrink(&self, r: &MemoryReservation, s: usize) {
+        self.0.shrink(r, s)
+    }
+    fn try_grow(&self, r: &MemoryReservation, a: usize) -> datafusion_common::Result<()> {
+        self.0.try_grow(r, a)
+    }
+    fn reserved(&self) -> usize {
+        self.0.reserved()
+    }
+    fn memory_limit(&self) -> MemoryLimit {
+        self.0.memory_limit()
+    }
+}
+
+pub const WRAPS: [&str; 6] = ["plain", "track", "peak", "peak(track)", "track(peak)", "track(track)"];
+
+struct Pools {
+    pool: Arc<dyn MemoryPool>,
+    tracks: Vec<Arc<TrackConsumersPool<Dyn>>>,
+    peak: Option<Arc<PeakRecordingPool>>,
+}
+
+fn build(kind: &str, limit: usize, wrap: usize) -> Pools {
+    let base: Arc<dyn MemoryPool> = match kind {
+        "unbounded" => Arc::new(UnboundedMemoryPool::default()),
+        "greedy" => Arc::new(GreedyMemoryPool::new(limit)),
+        _ => Arc::new(FairSpillPool::new(limit)),
+    };
+    let top = NonZeroUsize::new(3).unwrap();
+    match wrap {
+        0 => Pools { pool: base, tracks: vec![], peak: None },
+        1 => {
+            let t = Arc::new(TrackConsumersPool::new(Dyn(base), top));
+            Pools { pool: t.clone(), tracks: vec![t], peak: None }
+        }
+        2 => {
+            let p = Arc::new(PeakRecordingPool::new(base));
+            Pools { pool: p.clone(), tracks: vec![], peak: Some(p) }
+        }
+        3 => {
+            let t = Arc::new(TrackConsumersPool::new(Dyn(base), top));
+            let p = Arc::new(PeakRecordingPool::new(t.clone()));
+            Pools { pool: p.clone(), tracks: vec![t], peak: Some(p) }
+        }
+        4 => {
+            let p = Arc::new(PeakRecordingPool::new(base));
+            let t = Arc::new(TrackConsumersPool::new(Dyn(p.clone()), top));
+            Pools { pool: t.clone(), tracks: vec![t], peak: Some(p) }
+        }
+        _ => {
+            let t1 = Arc::new(TrackConsumersPool::new(Dyn(base), top));
+            let t2 = Arc::new(TrackConsumersPool::new(Dyn(t1.clone()), NonZeroUsize::new(1).unwrap()));
+            Pools { pool: t2.clone(), tracks: vec![t1, t2], peak: None }
+        }
+    }
+}
+
+#[derive(Default)]
+pub struct Stats {
+    pub runs: u64,
+    pub ops: u64,
+    pub try_grow_ok: u64,
+    pub try_grow_err: u64,
+    pub known: u64,
+    pub post_known_ops: u64,
+    pub report_top_checks: u64,
+}
+
+fn arr(v: &Value) -> Vec<u64> {
+    v.as_array().unwrap().iter().map(|x| x.as_u64().unwrap()).collect()
+}
+
+fn run_history(case: &Value, wrap: usize, rng: &mut StdRng, st: &mut Stats, observed: &mut Vec<Value>) -> Result<bool, Value> {
+    let kind = case["kind"].as_str().unwrap();
+    let unit: usize = [1usize, 1, 10, 1000, 1 << 20][rng.random_range(0..5)];
+    let limit = case["limit"].as_u64().unwrap() as usize * unit;
+    let pools = build(kind, limit, wrap);
+    let pool = &pools.pool;
+    let ops = case["ops"].as_array().unwrap();
+    let nr = ops[0]["sizes"].as_array().unwrap().len();
+    let nc = ops[0]["tr"].as_array().unwrap().len();
+    let mut res: Vec<Option<MemoryReservation>> = (0..nr).map(|_| None).collect();
+    let mut owner = vec![0usize; nr];
+    let mut cons_spill = vec![false; nc];
+    let mut cons_live = vec![false; nc];
+    let mut ncons = 0usize;
+    let mut diverged = false; // the known fair-pool divergence happened: only the property-level oracle applies
+    let mut hit_known = false;
+    let fail = |i: usize, msg: String, obs: Value| -> Value {
+        json!({"case": case, "wrap": WRAPS[wrap], "unit": unit, "op_index": i + 1, "message": msg, "observed": obs})
+    };
+    match pool.memory_limit() {
+        MemoryLimit::Infinite if kind == "unbounded" => {}
+        MemoryLimit::Finite(l) if kind != "unbounded" && l == limit => {}
+        _ => return Err(fail(0, "memory_limit() does not report the configured limit".into(), json!(null))),
+    }
+    for (i, op) in ops.iter().enumerate() {
+        st.ops += 1;
+        if diverged {
+            st.post_known_ops += 1;
+        }
+        let o = op["op"].as_str().unwrap();
+        let r = op["r"].as_u64().unwrap() as usize;
+        let n = op["n"].as_u64().unwrap() as usize * unit;
+        let exp_res = op["res"].as_str().unwrap();
+        let exp_ret = op["ret"].as_u64().unwrap() as usize;
+        let before_reserved = pool.reserved();
+        let before_sizes: Vec<usize> = res.iter().map(|x| x.as_ref().map(|x| x.size()).unwrap_or(0)).collect();
+        let mut got = "ok".to_string();
+        let mut ret: Option<usize> = None;
+        let mut errtxt = String::new();
+        let mut was_try_grow = false;
+        match o {
+            "register" | "register_spill" => {
+                ncons += 1;
+                let sp = o == "register_spill";
+                let c = MemoryConsumer::new(format!("c{ncons}")).with_can_spill(sp);
+                res[r - 1] = Some(c.register(pool));
+                owner[r - 1] = ncons;
+                cons_spill[ncons - 1] = sp;
+                cons_live[ncons - 1] = true;
+            }
+            "grow" => {
+                let x = res[r - 1].as_ref().unwrap();
+                if rng.random_bool(0.3) { x.resize(x.size() + n) } else { x.grow(n) }
+            }
+            "try_grow" => {
+                was_try_grow = true;
+                let x = res[r - 1].as_ref().unwrap();
+                let rr = if rng.random_bool(0.3) { x.try_resize(x.size() + n) } else { x.try_grow(n) };
+                match rr {
+                    Ok(()) => st.try_grow_ok += 1,
+                    Err(e) => {
+                        st.try_grow_err += 1;
+                        got = "err".into();
+                        errtxt = e.to_string();
+                        if !matches!(e, DataFusionError::ResourcesExhausted(_)) {
+                            return Err(fail(i, format!("try_grow failed with an error that is not ResourcesExhausted: {errtxt}"), json!(null)));
+                        }
+                    }
+                }
+            }
+            "shrink" => {
+                let x = res[r - 1].as_ref().unwrap();
+                if rng.random_bool(0.3) { x.resize(x.size() - n) } else { x.shrink(n) }
+            }
+            "try_shrink" => {
+                let x = res[r - 1].as_ref().unwrap();
+                if n <= x.size() && rng.random_bool(0.3) {
+                    match x.try_resize(x.size() - n) {
+                        Ok(()) => ret = Some(x.size()),
+                        Err(e) => {
+                            got = "err".into();
+                            errtxt = e.to_string();
+                        }
+                    }
+                } else {
+                    match x.try_shrink(n) {
+                        Ok(v) => ret = Some(v),
+                        Err(e) => {
+                            got = "err".into();
+                            errtxt = e.to_string();
+                        }
+                    }
+                }
+            }
+            "free" => ret = Some(res[r - 1].as_ref().unwrap().free()),
+            "split" | "take" | "new_empty" => {
+                let q = exp_ret;
+                let x = res[r - 1].as_mut().unwrap();
+                let nw = match o {
+                    "split" => x.split(n),
+                    "take" => x.take(),
+                    _ => x.new_empty(),
+                };
+                res[q - 1] = Some(nw);
+                owner[q - 1] = owner[r - 1];
+            }
+            "drop" => {
+                let c = owner[r - 1];
+                drop(res[r - 1].take());
+                if !(0..nr).any(|k| res[k].is_some() && owner[k] == c) {
+                    cons_live[c - 1] = false;
+                }
+            }
+            "reset_peak" => {
+                if let Some(p) = &pools.peak {
+                    p.reset_peak();
+                }
+            }
+            other => return Err(json!({"tool_error": format!("unknown op {other}")})),
+        }
+        // ---------------- observe
+        let reserved = pool.reserved();
+        let sizes: Vec<usize> = res.iter().map(|x| x.as_ref().map(|x| x.size()).unwrap_or(0)).collect();
+        let alive: Vec<u64> = res.iter().map(|x| x.is_some() as u64).collect();
+        let mut tracked: Vec<Vec<(String, bool, usize, usize)>> = vec![];
+        for t in &pools.tracks {
+            let mut m: Vec<(String, bool, usize, usize)> = t.metrics().into_iter().map(|m| (m.name, m.can_spill, m.reserved, m.peak)).collect();
+            m.sort();
+            tracked.push(m);
+        }
+        let pk = pools.peak.as_ref().map(|p| (p.peak_reserved(), p.max_reserved()));
+        let obs = json!({"res": got, "err": errtxt, "ret": ret, "reserved": reserved, "sizes": sizes, "alive": alive,
+                         "tracked": tracked.iter().map(|m| m.iter().map(|(a, b, c, d)| json!([a, b, c, d])).collect::<Vec<_>>()).collect::<Vec<_>>(),
+                         "peak_max": pk.map(|(a, b)| vec![a, b])});
+        if observed.len() < 32 {
+            observed.push(json!({"op": o, "r": r, "n": n, "res": got, "reserved": reserved, "sizes": sizes}));
+        }
+        // ---------------- known finding: the fair pool bounds each reservation, not the consumer
+        if !diverged && o == "try_grow" && kind == "fair" && exp_res == "err" && exp_ret == 1 && got == "ok" {
+            let c = owner[r - 1];
+            let nres_of_c = (0..nr).filter(|k| res[*k].is_some() && owner[*k] == c).count();
+            if cons_spill[c - 1] && nres_of_c >= 2 {
+                diverged = true;
+                hit_known = true;
+                st.known += 1;
+            }
+        }
+        // ---------------- property-level oracle
+        let mut msg: Option<String> = None;
+        let total: usize = sizes.iter().sum();
+        if reserved != total {
+            msg = Some(format!("pool.reserved()={reserved} but the live reservations hold {total}"));
+        } else if alive.iter().sum::<u64>() == 0 && reserved != 0 {
+            msg = Some(format!("everything dropped but reserved()={reserved}"));
+        } else if got == "err" && (reserved != before_reserved || sizes != before_sizes) {
+            msg = Some(format!("a failed {o} changed the state: reserved {before_reserved}->{reserved}, sizes {before_sizes:?}->{sizes:?}"));
+        } else if was_try_grow && got == "ok" && kind == "greedy" && reserved > limit {
+            msg = Some(format!("greedy pool granted try_grow to reserved()={reserved} beyond its limit {limit}"));
+        }
+        for (ti, m) in tracked.iter().enumerate() {
+            if msg.is_some() {
+                break;
+            }
+            let live_n = cons_live.iter().filter(|x| **x).count();
+            if m.len() != live_n {
+                msg = Some(format!("tracking pool #{ti} lists {} consumers, {live_n} are registered", m.len()));
+                break;
+            }
+            for c in 1..=nc {
+                if !cons_live[c - 1] {
+                    continue;
+                }
+                let want: usize = (0..nr).filter(|k| res[*k].is_some() && owner[*k] == c).map(|k| sizes[k]).sum();
+                match m.iter().find(|e| e.0 == format!("c{c}")) {
+                    None => msg = Some(format!("tracking pool #{ti} has no entry for registered consumer c{c}")),
+                    Some(e) if e.1 != cons_spill[c - 1] => msg = Some(format!("tracking pool #{ti}: can_spill of c{c} wrong")),
+                    Some(e) if e.2 != want => msg = Some(format!("tracking pool #{ti}: consumer c{c} reserved {} but its reservations hold {want}", e.2)),
+                    Some(e) if e.3 < e.2 => msg = Some(format!("tracking pool #{ti}: consumer c{c} peak {} < reserved {}", e.3, e.2)),
+                    _ => {}
+                }
+            }
+        }
+        if msg.is_none() {
+            if let Some((p, m)) = pk {
+                if p < reserved || m < p {
+                    msg = Some(format!("peak recorder: peak {p} max {m} reserved {reserved}"));
+                }
+            }
+        }
+        // report_top: the k largest consumers by current reservation, with their peaks
+        if msg.is_none() && !tracked.is_empty() && rng.random_bool(0.5) {
+            st.report_top_checks += 1;
+            let k = rng.random_range(1..=3usize);
+            let rep = pools.tracks[0].report_top(k);
+            let lines: Vec<&str> = rep.trim_end_matches('.').split(",\n").filter(|l| !l.trim().is_empty()).collect();
+            let m = &tracked[0];
+            let mut sorted: Vec<usize> = m.iter().map(|e| e.2).collect();
+            sorted.sort_by(|a, b| b.cmp(a));
+            let want_n = k.min(m.len());
+            if lines.len() != want_n {
+                msg = Some(format!("report_top({k}) lists {} consumers, expected {want_n}: {rep:?}", lines.len()));
+            } else {
+                for (li, l) in lines.iter().enumerate() {
+                    // the li-th line must describe some consumer whose reservation equals the li-th largest
+                    let ok = m.iter().any(|e| {
+                        e.2 == sorted[li]
+                            && l.trim_start().starts_with(&format!("{}#", e.0))
+                            && l.contains(&format!("(can spill: {}) consumed {}, peak {}", e.1, human_readable_size(e.2), human_readable_size(e.3)))
+                    });
+                    if !ok {
+                        msg = Some(format!("report_top({k}) line {} = {l:?} does not describe a consumer holding the {}-th largest reservation {}; metrics {m:?}", li + 1, li + 1, sorted[li]));
+                        break;
+                    }
+                }
+            }
+        }
+        // ---------------- conformance with the values MemPool.tla expects
+        if msg.is_none() && !diverged {
+            let e_sizes: Vec<usize> = arr(&op["sizes"]).iter().map(|x| *x as usize * unit).collect();
+            let e_alive = arr(&op["alive"]);
+            let e_tr = arr(&op["tr"]);
+            let e_pk = arr(&op["pk"]);
+            let e_present = arr(&op["present"]);
+            if got != exp_res {
+                msg = Some(format!("{o} returned {got} ({errtxt}); the specification expects {exp_res}"));
+            } else if reserved != op["reserved"].as_u64().unwrap() as usize * unit {
+                msg = Some(format!("reserved()={reserved}; the specification expects {}", op["reserved"].as_u64().unwrap() as usize * unit));
+            } else if sizes != e_sizes || alive != e_alive {
+                msg = Some(format!("sizes {sizes:?}; the specification expects {e_sizes:?}"));
+            } else if let (Some(v), true) = (ret, matches!(o, "free" | "try_shrink") && got == "ok") {
+                if v != exp_ret * unit {
+                    msg = Some(format!("{o} returned {v}; the specification expects {}", exp_ret * unit));
+                }
+            }
+            for (ti, m) in tracked.iter().enumerate() {
+                if msg.is_some() {
+                    break;
+                }
+                for c in 1..=nc {
+                    let e = m.iter().find(|e| e.0 == format!("c{c}"));
+                    match (e_present[c - 1] == 1, e) {
+                        (true, Some(e)) => {
+                            if e.2 != e_tr[c - 1] as usize * unit || e.3 != e_pk[c - 1] as usize * unit {
+                                msg = Some(format!("tracking pool #{ti}: c{c} reserved/peak = {}/{}; the specification expects {}/{}", e.2, e.3, e_tr[c - 1] as usize * unit, e_pk[c - 1] as usize * unit));
+                            }
+                        }
+                        (false, None) => {}
+                        (true, None) => msg = Some(format!("tracking pool #{ti}: entry of c{c} missing")),
+                        (false, Some(_)) => msg = Some(format!("tracking pool #{ti}: entry of unregistered c{c} still present")),
+                    }
+                }
+            }
+            if msg.is_none() {
+                if let Some((p, m)) = pk {
+                    let (ep, em) = (op["peak"].as_u64().unwrap() as usize * unit, op["max"].as_u64().unwrap() as usize * unit);
+                    if p != ep || m != em {
+                        msg = Some(format!("peak_reserved()/max_reserved() = {p}/{m}; the specification expects {ep}/{em}"));
+                    }
+                }
+            }
+        }
+        if let Some(m) = msg {
+            return Err(fail(i, m, obs));
+        }
+    }
+    // ---------------- end: drop everything
+    for x in res.iter_mut() {
+        drop(x.take());
+    }
+    if pool.reserved() != 0 {
+        return Err(fail(ops.len(), format!("after dropping every reservation reserved()={}", pool.reserved()), json!(null)));
+    }
+    for (ti, t) in pools.tracks.iter().enumerate() {
+        if !t.metrics().is_empty() {
+            return Err(fail(ops.len(), format!("tracking pool #{ti} still lists consumers after everything was dropped"), json!(null)));
+        }
+    }
+    st.runs += 1;
+    Ok(hit_known)
+}
+
+fn one(case: &Value, ci: usize, wrap: usize, seed: u64, st: &mut Stats, observed: &mut Vec<Value>) -> Result<bool, Value> {
+    let mut rng = StdRng::seed_from_u64(seed.wrapping_mul(1_000_003).wrapping_add(ci as u64 * 8 + wrap as u64));
+    match std::panic::catch_unwind(std::panic::AssertUnwindSafe(|| run_history(case, wrap, &mut rng, st, observed))) {
+        Ok(r) => r,
+        Err(p) => {
+            let m = p.downcast_ref::<String>().cloned().or_else(|| p.downcast_ref::<&str>().map(|s| s.to_string())).unwrap_or_default();
+            Err(json!({"case": case, "wrap": WRAPS[wrap], "message": format!("panic: {m}")}))
+        }
+    }
+}
+
+pub fn main() {
+    let out = util::arg("--out").expect("--out");
+    let seed = util::seed();
+    std::panic::set_hook(Box::new(|_| {}));
+    let mut st = Stats::default();
+    let mut violations = vec![];
+    let mut known = vec![];
+    let mut samples = vec![];
+    let mut tool_errors: Vec<String> = vec![];
+    let mut per_wrap = vec![0u64; WRAPS.len()];
+    let mut per_kind = std::collections::BTreeMap::<String, u64>::new();
+    if let Some(rp) = util::arg("--replay") {
+        let v: Value = serde_json::from_str(&std::fs::read_to_string(&rp).expect("replay file")).expect("json");
+        let wrap = WRAPS.iter().position(|w| *w == v["violation"]["wrap"].as_str().unwrap_or("plain")).unwrap_or(0);
+        let mut obs = vec![];
+        match one(&v["violation"]["case"], v["case_index"].as_u64().unwrap_or(0) as usize, wrap, v["harness_seed"].as_u64().unwrap_or(seed), &mut st, &mut obs) {
+            Ok(_) => {}
+            Err(e) => violations.push(json!({"violation": e, "case_index": v["case_index"], "harness_seed": v["harness_seed"]})),
+        }
+        samples.push(json!({"case": v["violation"]["case"], "observed": obs}));
+    } else {
+        let cases = util::read_ndjson(&util::arg("--in").expect("--in"));
+        for (ci, case) in cases.iter().enumerate() {
+            *per_kind.entry(case["kind"].as_str().unwrap().to_string()).or_default() += 1;
+            for wrap in 0..WRAPS.len() {
+                let mut obs = vec![];
+                match one(case, ci, wrap, seed, &mut st, &mut obs) {
+                    Ok(k) => {
+                        per_wrap[wrap] += 1;
+                        if k && known.len() < 1 {
+                            known.push(json!({"case": case, "wrap": WRAPS[wrap], "observed": obs.clone()}));
+                        }
+                        if samples.len() < 2 && ci % 499 == 7 && wrap == 3 {
+                            samples.push(json!({"case": case, "wrap": WRAPS[wrap], "observed": obs}));
+                        }
+                    }
+                    Err(e) => {
+                        if let Some(t) = e.get("tool_error") {
+                            tool_errors.push(t.to_string());
+                        } else if violations.len() < 10 {
+                            violations.push(json!({"violation": e, "case_index": ci, "harness_seed": seed}));
+                        }
+                    }
+                }
+            }
+        }
+    }
+    let res = json!({"evaluations": st.runs, "ops": st.ops, "try_grow_ok": st.try_grow_ok, "try_grow_err": st.try_grow_err,
+                     "known_divergences": st.known, "post_known_ops": st.post_known_ops, "report_top_checks": st.report_top_checks,
+                     "per_wrapper": WRAPS.iter().zip(per_wrap.iter()).map(|(w, n)| json!([w, n])).collect::<Vec<_>>(), "per_kind": per_kind,
+                     "violations": violations, "known": known, "tool_errors": tool_errors, "samples": samples});
+    std::fs::write(&out, serde_json::to_string(&res).unwrap()).unwrap();
+    util::summary(json!({"evaluations": st.runs, "violations": res["violations"].as_array().unwrap().len()}));
+}
